@@ -83,8 +83,14 @@ def sample_diff(nsec):
 
 
 def run(cmd, env, data=None, timeout=30):
-    p = subprocess.run(cmd, env=env, input=data, stdin=None if data is not None else subprocess.DEVNULL,
-                       stdout=subprocess.PIPE, stderr=subprocess.PIPE, timeout=timeout)
+    """-> (status, stdout, stderr); a run that does not end within the timeout is reported as status -9 with the
+    marker HANG in stderr (a hang after the consumer went away is a violation of the property, not a machinery error)"""
+    try:
+        p = subprocess.run(cmd, env=env, input=data, stdin=None if data is not None else subprocess.DEVNULL,
+                           stdout=subprocess.PIPE, stderr=subprocess.PIPE, timeout=timeout)
+    except subprocess.TimeoutExpired as e:
+        subprocess.run(["pkill", "-f", "VERIF_STUB_OUTPUT"], stdout=subprocess.DEVNULL, stderr=subprocess.DEVNULL)
+        return -9, e.stdout or b"", b"HANG: no exit within %d s" % timeout
     return p.returncode, p.stdout, p.stderr
 
 
@@ -102,6 +108,9 @@ def modes(d, sd, size):
             f.write(('{"type":"match","data":{"path":{"text":"a%d.rs"},"lines":{"text":"x main\\n"},"line_number":%d,'
                      '"absolute_offset":0,"submatches":[{"match":{"text":"main"},"start":2,"end":6}]}}\n'
                      % (i // 2, i + 1)).encode())
+            # a context line far below: in ripgrep-style output a `--` separator is written between the two groups
+            f.write(('{"type":"context","data":{"path":{"text":"a%d.rs"},"lines":{"text":"ctx\\n"},"line_number":%d,'
+                     '"absolute_offset":0,"submatches":[]}}\n' % (i // 2, i + 50)).encode())
     fa, fb = os.path.join(d, "a_%d.txt" % size), os.path.join(d, "b_%d.txt" % size)
     with open(fa, "w") as f:
         f.write("".join("line %d\n" % i for i in range(size * 3)))
@@ -186,9 +195,19 @@ def pager_quit_task(task):
     full_args = ["--paging=always", "--pager=" + os.path.join(sd, "pg_cli")] + args
     os.makedirs(rec, exist_ok=True)
     st, out, err = run([build.BIN] + full_args, env, data)
-    rows = open(os.path.join(rec, "pg_cli.stdin"), "rb").read().count(b"\n")
+    got = open(os.path.join(rec, "pg_cli.stdin"), "rb").read()
+    rows = got.count(b"\n")
     viols = []
     n = 0
+    # what the pager receives is exactly what --paging=never writes to stdout, and nothing bypasses the pager
+    st0, out0, err0 = run([build.BIN] + ["--paging=never"] + args, env, data)
+    n += 2
+    if early is None and (got != out0 or out != b""):
+        v = Violation("pager-input-differs:" + name, "mode %s: the pager received %d bytes, --paging=never writes %d bytes; "
+                      "%d bytes went to delta's own stdout instead of the pager" % (name, len(got), len(out0), len(out)),
+                      None, None, out0[:300], got[:300])
+        v.args = full_args
+        viols.append(v)
     for j in (range(0, rows + 1) if early is None else [j_ for j_ in early if j_ <= rows]):
         shutil.rmtree(rec, ignore_errors=True)
         os.makedirs(rec)
@@ -402,7 +421,7 @@ def main(tier):
     sizes = [1, 3] if tier == "quick" else [1, 3, 6, 12]
     ftasks = [(s, m) for s in sizes for m in range(6)]
     fres = explore.pmap(fault_task, ftasks)
-    qres = explore.pmap(pager_quit_task, [(s, m) for s in sizes for m in (0, 1, 3, 4)])
+    qres = explore.pmap(pager_quit_task, [(s, m) for s in sizes for m in (0, 1, 3, 4, 5)])
     # outputs far larger than a pipe buffer: the consumer disappears while the child process (git, rg, the differ)
     # still has output to write, so the child is killed by SIGPIPE; first write indexes / pager rows only
     BIG = 3000
